@@ -163,16 +163,45 @@ def mk_inc(j):
 
 
 def job_corr(j):
-    """construct a raw / incomplete correlation and evaluate it"""
+    """construct a raw / incomplete correlation (or fetch a library group's)
+    and evaluate it"""
     try:
         with warnings.catch_warnings(record=True):
             warnings.simplefilter('always')
-            obj = mk_raw(j) if j['cls'] == 'raw' else mk_inc(j)
+            if j['cls'] == 'raw':
+                obj = mk_raw(j)
+            elif j['cls'] == 'inc':
+                obj = mk_inc(j)
+            else:
+                obj = get_lib(j['lib'])[j['name']]['thermochem']
     except Exception as e:
         return {'exc': exc_name(e), 'msg': str(e)[:200]}
     res = {'range': rng_of(obj), 'vals': eval_props(obj, j['evalTs'], j.get('props', ('cp', 'h', 's', 'g')))}
     if j.get('oracle'):
         res['oracle'] = spline_oracle(obj, j)
+    if j.get('pairs'):
+        from scipy.integrate import quad
+        raw = obj if j['cls'] == 'raw' else getattr(obj, '_correlation', None)
+        knots = sorted(float(t) for t in raw.Ts) if raw is not None else []
+        ints = []
+        for T1, T2 in j['pairs']:
+            lo, hi = min(T1, T2), max(T1, T2)
+            pts = [k for k in knots if lo < k < hi] or None
+            try:
+                with warnings.catch_warnings(record=True):
+                    warnings.simplefilter('always')
+                    a = quad(lambda t: float(obj.get_CpoR(t)), T1, T2, points=pts, limit=400, epsabs=1e-10, epsrel=1e-10)[0]
+                    b = quad(lambda t: float(obj.get_CpoR(t)) / t, T1, T2, points=pts, limit=400, epsabs=1e-10, epsrel=1e-10)[0]
+                ints.append({'Icp': float(a), 'IcpT': float(b)})
+            except Exception as e:
+                ints.append({'exc': exc_name(e)})
+        res['integrals'] = ints
+    if j['cls'] == 'lib':
+        res['rec'] = {'T_ref': float(obj.T_ref),
+                      'H': None if obj.ND_H_ref is None else num(obj.ND_H_ref),
+                      'S': None if obj.ND_S_ref is None else num(obj.ND_S_ref),
+                      'Ts': sorted(float(t) for t in obj.ND_Cp_data),
+                      'Cps': [num(obj.ND_Cp_data[t]) for t in sorted(obj.ND_Cp_data)]}
     return res
 
 
@@ -189,12 +218,13 @@ def spline_oracle(obj, j):
     inside = [p for p in pts if lo <= p <= hi]
     spl = {repr(p): float(raw.spline(p)) for p in inside}
     splint, quads = {}, {}
-    for a in inside:
+    starts = [p for p in (float(raw.T_ref), lo, hi) if lo <= p <= hi]
+    for a in starts:
         for b in inside:
             splint['%r,%r' % (a, b)] = float(raw.spline.integral(a, b))
             quads['%r,%r' % (a, b)] = float(quad(lambda t: raw.spline(t) / t, a, b)[0])
     ln = {}
-    for a in pts:
+    for a in (float(raw.T_ref), lo, hi):
         for b in pts:
             if a > 0 and b > 0:
                 ln['%r,%r' % (b, a)] = float(np.log(b / a))
